@@ -86,13 +86,13 @@ def bad (msg : String) : J := .obj [("bad_request", .str msg)]
 /-! ### KeyPathSet histories -/
 
 def buildSet (paths : List Path) : Except Err Trie :=
-  paths.foldlM (fun t p => (Trie.add false t p).map (·.1)) Trie.empty
+  paths.foldlM (fun t p => (Trie.add false t (escP p)).map (·.1)) Trie.empty
 
-def pathsJ (t : Trie) : J := .arr (t.toList.map pathToJ)
+def pathsJ (t : Trie) : J := .arr (t.toList.map (fun p => pathToJ (unescP p)))
 
 /-- One operation on set `a` with `b` as the other operand. Returns (new a, result). -/
 def setOp (a b : Trie) (j : J) : Option (Except Err (Trie × J)) :=
-  let path := (j.get? "p").bind pathOfJ
+  let path := ((j.get? "p").bind pathOfJ).map escP
   match j.getStr? "k", path with
   | some "add", some p => some ((Trie.add false a p).map fun r => (r.1, .bool r.2))
   | some "add_ii", some p => some ((Trie.add true a p).map fun r => (r.1, .bool r.2))
